@@ -117,9 +117,40 @@ def plan(tier, seed):
     return specs
 
 
+def judge_reserved_names(sh, api):
+    """Arguments called like the placeholders the parser makes up for command names (cmd11, cmd12, cmd21): the parser
+    has to step aside, under a CPU budget (stepping aside is a loop)."""
+    from rv.instruments.cpubudget import CpuBudgetExceeded, cpu_budget
+
+    A, CN = api.Argument, api.CommandName
+    for cmds, names in (([CN("server")], ["cmd11", "cmd12"]), ([CN("server"), CN("add", ["plus"])], ["cmd11", "cmd21", "cmd12"]), ([CN("server")], ["cmd-11", "cmd1"])):
+        fmt = api.ArgsFormat(cmds + [A(n, A.REQUIRED if k == 0 else A.OPTIONAL) for k, n in enumerate(names)])
+        path = [c.string for c in cmds]
+        for values in (["v1"], ["v%d" % k for k in range(len(names))]):
+            for lenient in (False, True):
+                rec = {"kind": "reserved-argument-names", "commands": path, "arguments": names, "tokens": path + values, "lenient": lenient}
+                sh.case(("reserved", tuple(path), tuple(names), len(values), lenient), True)
+                want = dict((n, values[k] if k < len(values) else None) for k, n in enumerate(names))
+                try:
+                    with cpu_budget(5.0):
+                        r = api.DefaultArgsParser().parse(api.ArgvArgs(["prog"] + path + values), fmt, lenient)
+                    got = dict((n, r.argument(n)) for n in names)
+                except CpuBudgetExceeded:
+                    sh.violate("parse-does-not-terminate", rec, "parsing used 5 s of CPU time without finishing")
+                    return
+                except Exception as e:
+                    sh.violate("parse-raises", rec, "argv/%s: %r" % ("lenient" if lenient else "strict", e))
+                    continue
+                sh.count("reserved_name_parses")
+                if got != want:
+                    sh.violate("wrong-values", rec, "arguments %r, intended %r" % (got, want))
+
+
 def run(sh, spec):
     repo.activate()
     api = argline.Api()
+    if spec["part"] == "enum" and spec["slice"][0] == 0:
+        judge_reserved_names(sh, api)
     if spec["part"] == "enum":
         cat = argline.one_option_formats() + argline.two_option_formats()
         i, n = spec["slice"]
